@@ -187,6 +187,17 @@ pub fn x(r: &mut Ref, e: &X) -> String {
             format!("(({a}) {} {}({q}))", crate::xspec::op_name(r.d, op), ["ANY", "SOME", "ALL"][*kind as usize % 3])
         }
         X::Kw(k) => k.to_string(),
+        X::InTuples(cols, rows) => {
+            let l: Vec<String> = cols.iter().map(|c| x(r, c)).collect();
+            let rs: Vec<String> = rows
+                .iter()
+                .map(|row| {
+                    let cells: Vec<String> = row.iter().map(|v| r.value(v)).collect();
+                    format!("({})", cells.join(", "))
+                })
+                .collect();
+            format!("(({}) IN ({}))", l.join(", "), rs.join(", "))
+        }
         X::CustWith(pieces, args, _) => {
             // positional (`?`) templates take the arguments in order of appearance
             let mut out = String::new();
